@@ -109,6 +109,58 @@ def frame_layout(bodies, opts):
     return out
 
 
+CONTAINERS = ["list", "tuple", "set", "frozenset", "dict", "dictkeys", "deque", "gen", "iter", "mapiter"]
+ONE_SHOT = ("gen", "iter", "mapiter")
+
+
+def cont_of(opts):
+    return (opts or {}).get("cont") or ("set" if (opts or {}).get("as_set") else "list")
+
+
+def mk_arg(ids, opts):
+    """The Iterable[tuple[int, int]] the caller hands to subscribe()/unsubscribe(): opts["cont"] names its kind
+    (default list, or set with the older "as_set").  gen / iter / mapiter can be iterated only ONCE."""
+    c = cont_of(opts)
+    if c == "list":
+        return list(ids)
+    if c == "tuple":
+        return tuple(ids)
+    if c == "set":
+        return set(ids)
+    if c == "frozenset":
+        return frozenset(ids)
+    if c == "dict":
+        return dict.fromkeys(ids, True)
+    if c == "dictkeys":
+        return dict.fromkeys(ids, True).keys()
+    if c == "deque":
+        return collections.deque(ids)
+    if c == "gen":
+        return (x for x in ids)
+    if c == "iter":
+        return iter(list(ids))
+    if c == "mapiter":
+        return map(tuple, [list(x) for x in ids])
+    raise ValueError("harness: unknown container kind " + repr(c))
+
+
+def caller_mutates(arg, opts):
+    """opts["mutate"]: what the CALLER does to the container it passed while its subscribe() call is suspended
+    (clear | extend = adds (2,9)); only for mutable containers, a no-op otherwise."""
+    m = (opts or {}).get("mutate")
+    if not m:
+        return
+    if m == "clear" and hasattr(arg, "clear"):
+        arg.clear()
+    elif m == "extend":
+        if isinstance(arg, (list, collections.deque)):
+            arg.append((2, 9))
+        elif isinstance(arg, set):
+            arg.add((2, 9))
+        elif isinstance(arg, dict):
+            arg[(2, 9)] = True
+
+
 def run_impl(hist, rmodes, lacts=None):
     """Runs one history on the real code; returns the list of per-step observations."""
     import ipsim
@@ -287,7 +339,7 @@ def run_impl(hist, rmodes, lacts=None):
                 if kind in ("S", "U"):
                     state["rs"] = item[2]
                     ids = [tuple(x) for x in item[1]]
-                    arg = set(ids) if (len(item) > 3 and item[3].get("as_set")) else ids
+                    arg = mk_arg(ids, item[3] if len(item) > 3 else {})
                     st["ret"] = await api(p.subscribe(arg) if kind == "S" else p.unsubscribe(arg))
                     await vloop.sleep_ticks(1)
                 elif kind == "A":
@@ -305,10 +357,11 @@ def run_impl(hist, rmodes, lacts=None):
                         await conn_up(st, item[1], nsess, False)
                 elif kind == "SW":
                     ids = [tuple(x) for x in item[1]]
-                    arg = set(ids) if item[3].get("as_set") else ids
+                    arg = mk_arg(ids, item[3])
                     state["rs"] = item[2]
                     task = asyncio.ensure_future(api(p.subscribe(arg)))
                     await vloop.sleep_ticks(1)
+                    caller_mutates(arg, item[3])
                     if not p.is_connected:
                         await conn_up(st, item[2], nsess, True)
                     st["ret"] = await task
